@@ -425,17 +425,40 @@ func observeC04(c *Case, in *PacketIn, dst []byte) {
 	var n int
 	// the destination is the tail of a larger array, so a write beyond len(dst) would be caught
 	// by the run time (index out of range), never silently absorbed by spare capacity
-	pbuf := cloneBytes(dst)
-	pbuf = pbuf[:len(pbuf):len(pbuf)]
-	if try(func() { n, err = pkt.MarshalTo(pbuf) }) {
+	// In half of the cases the destination has NO spare capacity (a write beyond len(dst) is then an
+	// index-out-of-range panic); in the other half it is a window into a larger pooled buffer whose
+	// bytes beyond the window are a sentinel: the contract is about len(dst), not cap(dst), and a
+	// write into the spare capacity is reported like the panic it would otherwise be (seed C04-2).
+	spare := 0
+	if c.R.Bool() {
+		spare = c.R.Pick(1, 7, 300, 2000)
+		c.Tag("dst=window-with-spare-capacity")
+	}
+	window := func() ([]byte, []byte) {
+		arena := make([]byte, len(dst)+spare)
+		copy(arena, dst)
+		for i := len(dst); i < len(arena); i++ {
+			arena[i] = 0xC3
+		}
+		return arena[:len(dst)], arena
+	}
+	intact := func(arena []byte) bool {
+		for i := len(dst); i < len(arena); i++ {
+			if arena[i] != 0xC3 {
+				return false
+			}
+		}
+		return true
+	}
+	pbuf, parena := window()
+	if try(func() { n, err = pkt.MarshalTo(pbuf) }) || !intact(parena) {
 		c.O.Panic()
 	} else if writeRes(&c.O, err) {
 		c.O.Nat(n)
 	}
 	c.O.Bytes(pbuf)
-	hbuf := cloneBytes(dst)
-	hbuf = hbuf[:len(hbuf):len(hbuf)]
-	if try(func() { n, err = pkt.Header.MarshalTo(hbuf) }) {
+	hbuf, harena := window()
+	if try(func() { n, err = pkt.Header.MarshalTo(hbuf) }) || !intact(harena) {
 		c.O.Panic()
 	} else if writeRes(&c.O, err) {
 		c.O.Nat(n)
